@@ -35,8 +35,19 @@ ASSUMPTIONS = ["one channel reader; one double-buffer reader; ring buffer: singl
                "lap a waiting reader (fewer than capacity messages are written while a reader waits); channel capacity >= 3 "
                "(a channel of capacity 1 or 2 refuses every write by construction)"]
 EVIDENCE_NOTES = [
-    "chan_futex / chan_cv / ring / abq / dbuf / synclock: deadlock-freedom and the per-sleeper invariant are proved for every "
-    "schedule and any number of threads; see Properties_C03.v for which statements are _partial",
+    "proved for every schedule and any number of threads (Properties_C03.v): X_no_deadlock and X_no_lost_wakeup for X = "
+    "chan_futex, chan_cv, rb, abq, dbuf, synclock; dbuf_notify_one_suffices; two refutation theorems (futex wait on a "
+    "re-loaded value; `if` instead of `while`) plus further vm_compute witnesses in C03/Variants.v",
+    "'empty' / 'full' in the theorems are the code's own tests (write_cursor = IDX(read_cursor+1); cursor = reader position; "
+    "cnt = 0 / capacity; back->cnt = 0).  That the ring's test means 'no unread message' needs the documented no-lapping "
+    "usage and is the data-path invariant of C02 (Example ring_lapped_reader_sleeps shows a lapped reader going to sleep)",
+    "abq_balanced_scripts_never_stuck / dbuf_balanced_scripts_never_stuck: with balanced scripts the 'somebody finished early' "
+    "end states are unreachable (counting invariant over the remaining script lengths); the analogous statement for the two "
+    "channel models and the ring (reader asks for exactly the number of accepted messages => never blocked at the end) is NOT "
+    "proved -- their theorems end in the legitimate state 'reader asleep on an empty conduit, writers finished'; liveness "
+    "under a fair scheduler is stated only in its safety form",
+    "observation (C01 territory, not a lost wake-up): a channel of capacity 1 or 2 refuses every write (wpos == rpos from "
+    "the start), so its reader waits for ever by construction; C03 scenarios use capacity >= 3",
 ]
 
 
@@ -113,12 +124,13 @@ GUIDED = [
 
 
 def corpus_cases(ctx):
-    cases = [
-        _mk("corpus-chanf-window", "chanf 4 single R 1 W 1", "list - 0 0 0 1 1 1 1 1 1 0 0 0 0 0 0"),
-        _mk("corpus-abq-cap1-spur", "abq 1 R 2 W 1 1", "rand 7 50 0 30"),
-        _mk("corpus-dbuf-two-blocked-writers", "dbuf 1 R 3 W 1 1 1", "rand 11 30 0 20"),
-        _mk("corpus-ring-once", "ring once 4 lock R 2 1 W 2 1", "rand 5 40 0 0"),
-    ]
+    import glob
+    import os
+    cases = []
+    for f in sorted(glob.glob(os.path.join(V.VERIF, "corpus", ID, "*.case"))):
+        c = V.Case.load(f)
+        c.meta["scen"] = c.lines[0]
+        cases.append(c)
     # model-guided schedules: ask the extracted model for schedules that park a sleeper between
     # its check and its sleep while the waker runs; replay them on the implementation
     runs = 6 if ctx.tier == "quick" else 40
@@ -216,17 +228,22 @@ def monitor(case, lines):
 
 
 def _mon_resumed(lines):
-    """asleep[t] = (kind, object, line index).  A futex sleeper must be woken by a later fwake on the
-    same word that reports a woken thread; a condvar sleeper by a later cvsig/cvall naming it (or an
-    explicit spurious wake-up line); the thread must then continue."""
+    """asleep[t] = (kind, object, line index, stores to the word so far).  A futex sleeper must be woken
+    by a later fwake on the same word that reports a woken thread; a condvar sleeper by a later
+    cvsig/cvall naming it (or an explicit spurious wake-up line); the thread must then continue.  A
+    completed write to the futex word while a thread sleeps on it must be followed by a wake-up of that
+    thread (a LATE wake-up -- the waker's store preceded the sleep -- is legitimate and not flagged)."""
     asleep = {}
     woken = {}
+    stores = {}          # cell -> number of completed stores so far (trace order)
     for i, ln in enumerate(lines):
         w = ln.split()
         if not w:
             continue
         if w[0] == "E":
             t, op, cell = w[1], w[2], w[3]
+            if op in ("store", "clear", "xchg", "cass", "casw", "fadd", "fsub"):
+                stores[cell] = stores.get(cell, 0) + 1
             if t in asleep and not (op == "cvwoke" and asleep[t][0] == "cv"):
                 return "thread %s acts (%s) while asleep on %s without a wake-up" % (t, ln, asleep[t][1])
             if op == "cvwoke":
@@ -235,7 +252,7 @@ def _mon_resumed(lines):
                 asleep.pop(t, None)
                 woken.pop(t, None)
             elif op == "fwait" and w[7] == "1":
-                asleep[t] = ("futex", cell, i)
+                asleep[t] = ("futex", cell, i, stores.get(cell, 0))
             elif op == "cvwait":
                 asleep[t] = ("cv", cell, i)
             elif op == "fwake" and int(w[6]) > 0:
@@ -264,7 +281,10 @@ def _mon_resumed(lines):
                 return "thread %s runs while asleep on %s" % (w[1], asleep[w[1]][1])
     if asleep:
         t = sorted(asleep)[0]
-        return "thread %s is still asleep on %s at the end of the run (never resumed)" % (t, asleep[t][1])
+        extra = ""
+        if asleep[t][0] == "futex" and stores.get(asleep[t][1], 0) > asleep[t][3]:
+            extra = "; a write to %s completed after it went to sleep and was never followed by a wake-up" % asleep[t][1]
+        return "thread %s is still asleep on %s at the end of the run (never resumed)%s" % (t, asleep[t][1], extra)
     return None
 
 
@@ -349,16 +369,18 @@ def _mon_ring(words, rs, ws, lines):
 
 
 def _mon_abq(cap, rs, ws, lines, fline):
+    # every completed put / take ends with the thread's munlock (a cond_wait releases the mutex
+    # without one); consumers are the threads with id < len(rs).  Independent of the notify calls.
     cnt = 0
     nc = len(rs)
     for ln in lines:
         w = ln.split()
-        if w[0] == "E" and w[2] == "cvsig":
-            if w[3] == "ne":        # issued by put right after the enqueue
+        if w[0] == "E" and w[2] == "munlock":
+            if int(w[1]) >= nc:
                 cnt += 1
                 if cnt > cap:
                     return "put into a full queue (count %d > capacity %d) by thread %s" % (cnt, cap, w[1])
-            elif w[3] == "nf":      # issued by take right after the dequeue
+            else:
                 cnt -= 1
                 if cnt < 0:
                     return "take from an empty queue by thread %s" % w[1]
@@ -374,16 +396,17 @@ def _mon_abq(cap, rs, ws, lines, fline):
 
 
 def _mon_dbuf(cap, rs, ws, lines, fline):
+    # the reader is thread 0; each completed write / read ends with that thread's munlock
     back = 0
     swapped = []
     for ln in lines:
         w = ln.split()
-        if w[0] == "E" and w[2] == "cvsig":
-            if w[3] == "ne":
+        if w[0] == "E" and w[2] == "munlock":
+            if w[1] != "0":
                 back += 1
                 if back > cap:
                     return "write into a full back buffer (count %d > capacity %d) by thread %s" % (back, cap, w[1])
-            elif w[3] == "nf":
+            else:
                 if back == 0:
                     return "reader swapped an empty back buffer"
                 swapped.append(back)
